@@ -227,21 +227,27 @@ class ExcelCompiler:
         existing_hash = (self._compute_file_md5_digest(filename)
                          if os.path.exists(filename) else None)
 
+        # an unchanged file is left alone, its time stamp tells to_file()
+        # whether a pickle was built from it
+        new_filename = filename + '.new'
         if not is_json:
-            with open(filename, 'w') as f:
+            with open(new_filename, 'w') as f:
                 ymlo = YAML()
                 ymlo.width = 120
                 ymlo.dump(extra_data, f)
         else:
-            with open(filename, 'w') as f:
+            with open(new_filename, 'w') as f:
                 json.dump(extra_data, f, indent=4)
 
         del extra_data['cell_map']
 
         # hash the newfile, return True if it changed, this is only reliable
         # on pythons which have ordered dict (CPython 3.6 & python 3.7+)
-        return (existing_hash is None or
-                existing_hash != self._compute_file_md5_digest(filename))
+        if existing_hash == self._compute_file_md5_digest(new_filename):
+            os.unlink(new_filename)
+            return False
+        os.replace(new_filename, filename)
+        return True
 
     @classmethod
     def _from_text(cls, filename, is_json=False):
@@ -358,7 +364,9 @@ class ExcelCompiler:
             if not filename.endswith(pickle_extension):
                 filename += '.' + pickle_extension
 
-            if text_changed or not os.path.exists(filename):
+            if (text_changed or not os.path.exists(filename) or
+                    # the text file was saved on its own since the last pickle
+                    os.path.getmtime(filename) < os.path.getmtime(text_name)):
                 excel_compiler = self._from_text(text_name, is_json=is_json)
                 if non_pickle_extension not in file_types:
                     os.unlink(text_name)
